@@ -3,11 +3,64 @@ from vq.meta import _m
 _m(
     "C04",
     "exploration",
-    "placeholder",
-    [],
+    "Hypothesis draws two kinds of cases, both run through DirectPtychography.from_virtual_bfs(...).reconstruct(...) and read at "
+    "corrected_stack / corrected_bf.  Common part: corner-centred detector grid (Q, R) in [5..13]^2; mask = the 3..40 pixels "
+    "nearest to the unscattered beam in an elliptical metric (disc/ellipse), or such a set with random pixels removed (blob), "
+    "never on the Nyquist row/column, DC-symmetric whenever crop_bf_mask=True (padding 0..2 kept inside the array) and in 1 of 4 "
+    "other cases, else asymmetric; given as an explicit list of signed pixel indices in stack order; optional sub-mask (random "
+    "3..n-1 of the n pixels, 2 in 3); reciprocal sampling 0.01..0.05 1/A per axis (isotropic or not), passed in 1/A or in mrad; "
+    "energy 60/80/200/300 keV; scan shape (sx, sy) in [4..12]^2 (odd, even, non-square) with scan sampling chosen so that the "
+    "scan-frequency step is 0.4..2.5 detector pixels; stack = 1 + eps * N(0,1) float32, eps in {0.05, 0.1, 0.2, 0.5}, from a "
+    "drawn seed; aberrations = random subset of {C10, C12, phi12, C21, phi21, C30} (analytic cases: {C10, C12, phi12} or none) "
+    "scaled so that the geometric shift at the mask edge is up to ~3 scan pixels, each key canonical or by its alias (defocus, "
+    "astigmatism, astigmatism_angle, coma, coma_angle, Cs), dictionary order either way; rotation angle 0 or in [-pi, pi]; "
+    "semi-angle cut-off crossing the mask edge (soft-aperture weights in (0,1)) or 3x the mask radius (all weights 1); "
+    "hyper-parameters given at construction or as override_* arguments of reconstruct.  (meta) adds kernel name over all 24 "
+    "spellings of the five kernels (ssb/single-sideband/acbf/..., obf, mf, prlx/parallax/tcbf/..., icom/center-of-mass, mixed "
+    "case) with a second spelling of the same kernel for the batched calls, upsampling None/1/2/3, q_lowpass (1 in 3, above the "
+    "first scan frequency) and q_highpass (1 in 4), parallax_flip_phase, soft_edges, the batch sizes {1, n-1, n, largest "
+    "non-divisor of n} + up to 3 more (all of 1..n when n <= 9), a second stack seed with coefficients a, b in [-2, 2] \\ {0} "
+    "and a batch size for the linearity runs, and a random bipartition of the reconstruction mask.  (analytic) parallax "
+    "spelling, parallax_flip_phase=False, no upsampling/filters, random batch size.  A meta case is NON-TRIVIAL when the "
+    "reconstruction mask has >= 4 pixels, at least one tested batch size b with 1 < b < n does not divide n (>= 2 batches of "
+    "unequal size) and the un-batched result is not identically zero; cases whose aperture weight is < 0.5 pixel or whose "
+    "filtered result is < 5 % of the un-filtered one are recorded as trivial and not judged.  An analytic case is NON-TRIVIAL "
+    "when the mask has >= 4 pixels and at least one image is translated by a non-zero shift (non-zero C10 or C12).  distinct = "
+    "SHA-1 of the canonical JSON of the whole case.",
+    [
+        "float32 pipeline; every comparison is relative to the largest magnitude of the compared results (for corrected_bf: max "
+        "|corrected_bf| + max |corrected_stack|, because the sum may cancel).  Tolerances / largest error measured on the clean "
+        "tree (see note): schedule invariance and sub-mask-vs-fresh-instance 5e-6, linearity 5e-5 (rounding of the float32 FFT "
+        "of 1 + eps*noise is ~1e-7/eps relative to the DC-free signal), recombination of complementary sub-masks 2e-5, "
+        "analytic parallax 1e-4",
+        "aperture weights W = sum_k |probe(k)|^2 are recomputed by the harness from the public evaluate_probe / "
+        "spatial_frequencies functions on the un-cropped grid with the harness's own wavelength (CODATA constants; differs "
+        "from quantem's by ~2e-7 relative) and the default soft aperture, which is what reconstruct normalises by; the "
+        "recombination relation is therefore only asserted for soft_edges=True instances",
+        "a reconstruction mask with total aperture weight < 0.5 pixel is outside the domain (division by ~0); so are "
+        "asymmetric masks with crop_bf_mask=True (the crop moves DC), mask pixels on the Nyquist row/column, and batch sizes "
+        "> num_bf",
+        "analytic oracle: float64 numpy; scattering angle of pixel k = wavelength * public spatial_frequencies(gpts, sampling, "
+        "rotation_angle) at that pixel; shift s_k = (wavelength / 2 pi) * autograd gradient of aberration_surface (float64), 0 "
+        "at the unscattered beam; translation by the DFT shift theorem on the scan grid, real part (independent of the sign "
+        "given to the Nyquist frequency); TRUSTED CONVENTION: image k is moved by +s_k (out(x) = v_k(x - s_k)) -- the "
+        "property fixes magnitude and axis, the sign was calibrated once against the pinned tree and is frozen in "
+        "vq/refs/c04_ref.py; the alias table (defocus = -C10, others 1:1) is the harness's own, as pinned by C12",
+        "relation (5) (reconstruct(bf_mask=sub) equals a fresh instance built from the sub-mask and its images only) is the "
+        "harness's reading of 'a function of the stack, the mask and the hyper-parameters only'; it is what reaches the "
+        "sub-mask -> stack index mapping for the two-pass kernels, which the recombination relation does not cover",
+        "gc.freeze() is called once in the harness process so that the two gc.collect() calls inside reconstruct cost ~1 ms "
+        "instead of ~0.1 s; nothing in quantem is patched",
+    ],
     workers=(1, 16),
-    technique="property-based testing (Hypothesis)",
-    text="",
-    note="",
+    technique="property-based testing (Hypothesis): metamorphic relations on generated configurations (batch-size invariance on a "
+    "re-used instance, linearity in the stack, weighted recombination of complementary sub-masks, sub-mask vs fresh instance) "
+    "and a float64 reference model for the parallax kernel (autograd shifts + DFT translation)",
+    text="Generated-input search.  Each configuration is reconstructed 10-25 times through the public entry point and the "
+    "results are compared with each other according to the relations the property names; parallax reconstructions without "
+    "sign flipping are compared with an independent float64 model.  Exploration only: no absence claim.",
+    note="The relations do not pin the content of the ssb/obf/mf/icom kernels or of up-sampled reconstructions (a wrong but "
+    "linear, batch-independent, mask-additive kernel passes); only the parallax kernel has an oracle in the statement.  "
+    "Trusts numpy float64 FFT and torch float64 autograd.",
     design="DESIGN.md §3 C04",
 )
